@@ -343,19 +343,19 @@ type engLockReq struct {
 }
 
 type engSched struct {
-	mu         sync.Mutex
-	rmu        sync.RWMutex // guards the resume map (read by request goroutines, written by the scheduler)
-	arrive     chan engArrival
-	resume     map[int]chan error
-	parked     map[int]string
-	expect     int // arrivals of requests still to come before the system is quiet
-	expectGate int // batches still to reach the InsertLogs gate (may be negative for a moment: the batch can arrive before its producer parks)
-	trace      []any
-	events     []J // what reached the publisher behind the real ledgerMonitor, decoded
+	mu          sync.Mutex
+	rmu         sync.RWMutex // guards the resume map (read by request goroutines, written by the scheduler)
+	arrive      chan engArrival
+	resume      map[int]chan error
+	parked      map[int]string
+	expect      int // arrivals of requests still to come before the system is quiet
+	expectGate  int // batches still to reach the InsertLogs gate (may be negative for a moment: the batch can arrive before its producer parks)
+	trace       []any
+	events      []J // what reached the publisher behind the real ledgerMonitor, decoded
 	ifaceEvents []J // what the commander asked the monitor to announce
-	publishing int // the request inside a call of the monitor (-1 = none)
-	gen        int // commander generation (restarts)
-	deadGen    map[int]bool
+	publishing  int // the request inside a call of the monitor (-1 = none)
+	gen         int // commander generation (restarts)
+	deadGen     map[int]bool
 
 	// scheduler-native account locks
 	holders []engLockReq
